@@ -339,7 +339,7 @@ func c04pickSize(r *Rng, cl string) int {
 	switch cl {
 	case "bigsize":
 		return c04sizes[r.Range(9, 15)]
-	case "inflight":
+	case "inflight", "closewait":
 		return r.Pick(1, 1, 2, 4)
 	}
 	if r.Chance(1, 10) {
@@ -703,6 +703,10 @@ type c04harn struct {
 	blocked     bool
 	resumeCh    chan struct{}
 	rtcpIn      []byte
+	// a Close issued while a resend is held runs in its own goroutine
+	closeWaiting  bool
+	closeReturned bool
+	late          int // resend writes that reached the bottom writer after that Close had returned
 }
 
 type c04bottom struct {
@@ -724,6 +728,9 @@ func (b *c04bottom) Write(hdr *rtp.Header, payload []byte, _ interceptor.Attribu
 		h.mu.Unlock()
 		<-ch
 		h.mu.Lock()
+	}
+	if tag == "rtx" && h.closeReturned {
+		h.late++
 	}
 	h.lines = append(h.lines, fmt.Sprintf("%s w=%d %s", tag, b.w, c04showPkt(hdr, payload)))
 	h.mu.Unlock()
@@ -876,7 +883,38 @@ func c04runResponder(t *testing.T, ops []string, o *Out) {
 			}
 			icpt.UnbindLocalStream(&interceptor.StreamInfo{SSRC: uint32(ssrc)})
 		case op == "close" && icpt != nil:
-			_ = icpt.Close()
+			h.mu.Lock()
+			waiting, held := h.closeWaiting, h.hold && h.blocked
+			h.mu.Unlock()
+			if waiting {
+				o.P("busy")
+				continue
+			}
+			if !held {
+				_ = icpt.Close()
+				continue
+			}
+			// a resend goroutine sits inside the downstream Write: Close must not return before it
+			// is done, so it is called from its own goroutine
+			h.mu.Lock()
+			h.closeWaiting = true
+			h.mu.Unlock()
+			ic := icpt
+			go func() {
+				_ = ic.Close()
+				h.mu.Lock()
+				h.closeReturned = true
+				h.mu.Unlock()
+			}()
+			synctest.Wait()
+			h.mu.Lock()
+			ret := h.closeReturned
+			h.mu.Unlock()
+			if ret {
+				o.P("close-waited=false")
+			} else {
+				o.P("close-blocked")
+			}
 		case op == "hold" && icpt != nil:
 			h.mu.Lock()
 			h.hold = true
@@ -884,6 +922,12 @@ func c04runResponder(t *testing.T, ops []string, o *Out) {
 		case op == "resume" && icpt != nil:
 			resume()
 			h.flush(o)
+			h.mu.Lock()
+			if h.closeWaiting {
+				o.P("close-waited=%v late=%d", h.closeReturned, h.late)
+				h.closeWaiting = false
+			}
+			h.mu.Unlock()
 		default:
 			o.P("bad-op")
 		}
@@ -900,7 +944,7 @@ func init() {
 		},
 		Gen: func(r *Rng, tier string, idx int) Case {
 			classes := []string{"inorder", "gaps", "late", "wrap", "dupreq", "neversent", "outside", "otherssrc",
-				"rtx", "padding", "bigpayload", "unbind", "close", "rebind", "inflight", "bigsize", "mixed", "badsize", "dup"}
+				"rtx", "padding", "bigpayload", "unbind", "close", "rebind", "inflight", "bigsize", "mixed", "badsize", "dup", "closewait"}
 			cl := classes[idx%len(classes)]
 			if cl == "badsize" {
 				return Case{Class: cl, Ops: []string{
@@ -935,7 +979,7 @@ func init() {
 					g.cl = cl
 				case "wrap":
 					g.cur = (65536 - r.Range(1, 2*min(size, 40)+3)) & 0xFFFF
-				case "neversent", "outside", "dupreq", "rtx", "padding", "bigpayload", "inflight":
+				case "neversent", "outside", "dupreq", "rtx", "padding", "bigpayload", "inflight", "closewait":
 					g.cl = []string{"inorder", "mixed"}[r.Intn(2)]
 				}
 				streams = append(streams, &stream{ssrc, g, fb})
@@ -976,9 +1020,17 @@ func init() {
 			n := r.Range(8, 45)
 			holding := false
 			pendingNack := false
+			closeIssued := false // a Close is waiting behind the held resend
 			for i := 0; i < n; i++ {
 				k := r.Intn(20)
 				switch {
+				case cl == "closewait" && pendingNack && !closeIssued && k >= 10:
+					// Close while a resend is held inside the downstream Write: it has to wait
+					ops = append(ops, "close")
+					closeIssued = true
+					if r.Bool() {
+						bind(1000+len(streams), true)
+					}
 				case k < 11:
 					write(r.Intn(len(streams)))
 				case k < 17:
@@ -996,22 +1048,24 @@ func init() {
 						bind(streams[r.Intn(len(streams))].ssrc, true)
 					}
 				case k == 18 && (cl == "close" || cl == "mixed" || cl == "inflight"):
-					if pendingNack {
-						// a resend goroutine may sit in the held downstream Write: whether Close waits
-						// for it is C11's question (F-06); keep this stream independent of the answer
+					if pendingNack && closeIssued {
 						write(r.Intn(len(streams)))
 						continue
 					}
+					// with a resend held inside the downstream Write this Close has to wait for it
 					ops = append(ops, "close")
+					if pendingNack {
+						closeIssued = true
+					}
 					if r.Bool() {
 						bind(1000+len(streams), true)
 					}
 				case k == 19 && cl == "rebind":
 					bind(streams[r.Intn(len(streams))].ssrc, true)
-				case cl == "inflight" || (cl == "mixed" && k == 19):
+				case cl == "inflight" || cl == "closewait" || (cl == "mixed" && k == 19):
 					if holding {
 						ops = append(ops, "resume")
-						holding, pendingNack = false, false
+						holding, pendingNack, closeIssued = false, false, false
 					} else {
 						ops = append(ops, "hold")
 						holding = true
